@@ -130,16 +130,32 @@ def _re_split(ex, args, kwargs, lineno):
 
 # ---- ast traversal helpers (C01, C16, C02): the CPython traversal order/contents are trusted; a node's children and
 # ---- its walk-closure are the uninterpreted attributes `iter_children` / `walk` of the PyNode domain ----------------
+def _native_children(n):
+    import ast as _ast
+    return list(_ast.iter_child_nodes(n))
+
+
+def _native_walk(n):
+    import ast as _ast
+    return list(_ast.walk(n))
+
+
+from contracts._nodes import PyNode as _PyNode  # noqa: E402
+
+py_children = uf("py_children", [_PyNode], SeqOf(_PyNode), concrete=_native_children)   # ast.iter_child_nodes(n) as a list
+py_walk = uf("py_walk", [_PyNode], SeqOf(_PyNode), concrete=_native_walk)               # ast.walk(n) as a list
+
+
 @external("ast.iter_child_nodes")
 def _ast_iter_child_nodes(ex, args, kwargs, lineno):
-    """ast.iter_child_nodes(n) -> the modelled sequence n.iter_children (direct child nodes in field order)."""
-    return ex.getattr(args[0], "iter_children")
+    """ast.iter_child_nodes(n) -> py_children(n): direct child nodes in field order (uninterpreted, trusted)."""
+    return ex.call_uf("py_children", [args[0]])
 
 
 @external("ast.walk")
 def _ast_walk(ex, args, kwargs, lineno):
-    """ast.walk(n) -> the modelled sequence n.walk (n and all its descendants, breadth-first)."""
-    return ex.getattr(args[0], "walk")
+    """ast.walk(n) -> py_walk(n): n and all its descendants, breadth-first (uninterpreted, trusted)."""
+    return ex.call_uf("py_walk", [args[0]])
 
 
 # ---- ast.unparse / ast.dump (C12, C19): source text / structural dump of a node are uninterpreted functions of the node
